@@ -95,7 +95,8 @@ fn value_matches(v: &DataValue, j: &Value) -> bool {
         (DataValue::String(s), Value::String(x)) => !is_iri(s) && s == x,
         (DataValue::String(s), Value::Object(o)) => is_iri(s) && o.get("id").and_then(|x| x.as_str()) == Some(s.as_str()),
         (DataValue::Datetime(d), Value::String(x)) => chrono::DateTime::parse_from_rfc3339(x).map(|p| p == *d).unwrap_or(false),
-        (DataValue::List(l), Value::Array(a)) => l.len() == a.len() && l.iter().zip(a).all(|(x, y)| value_matches(x, y)),
+        // inside a list an IRI-like string keeps its JSON type (string); the {"id": ..} form is accepted there as well
+        (DataValue::List(l), Value::Array(a)) => l.len() == a.len() && l.iter().zip(a).all(|(x, y)| value_matches(x, y) || matches!((x, y), (DataValue::String(s), Value::String(t)) if s == t)),
         _ => false,
     }
 }
@@ -382,6 +383,28 @@ pub fn run(p: &Params, rep: &mut Report) {
                     let op = Op::Annotate(AnnReq { id: Some(format!("w3c-{}", key)), target: Some(SelReq::Res(Ref::Id(r.id.clone()))), data: vec![DataReq { set: Ref::Id(CONTEXT_ANNO.into()), id: Ref::None, key: Ref::Id(key.into()), value }, DataReq { set: Ref::Id("plain".into()), id: Ref::None, key: Ref::Id("k".into()), value: DataValue::Int(1) }] });
                     let _ = h.step(&op);
                 }
+            }
+        }
+        // values whose JSON type is easy to get wrong: IRI-like strings (exported as {"id": ..}), near-IRIs, and short lists of them
+        if let Some(r) = h.model.resources.values().next().cloned() {
+            let s = |x: &str| DataValue::String(x.into());
+            let pool: Vec<DataValue> = vec![
+                s("https://example.org/x"), s("urn:isbn:123"), s("_:b0"), s("file:///tmp/x"), s("http://with space"), s("mailto:x"), s("https:"), s(":"), s("http"),
+                DataValue::List(vec![s("https://example.org/x")]),
+                DataValue::List(vec![DataValue::List(vec![s("urn:isbn:123")])]),
+                DataValue::List(vec![s("https://example.org/x"), s("x")]),
+                DataValue::List(vec![s("x")]),
+                DataValue::List(vec![DataValue::Int(7)]),
+                DataValue::List(vec![DataValue::Bool(true)]),
+                DataValue::List(vec![DataValue::Null]),
+                DataValue::List(vec![DataValue::Float(0.5)]),
+                DataValue::List(vec![]),
+                DataValue::List(vec![crate::gen::gen_datetime(&mut rng)]),
+            ];
+            for n in 0..rng.below(4) {
+                let value = rng.pick(&pool).clone();
+                let op = Op::Annotate(AnnReq { id: Some(format!("typed-{}", n)), target: Some(SelReq::Res(Ref::Id(r.id.clone()))), data: vec![DataReq { set: Ref::Id("plain".into()), id: Ref::None, key: Ref::Id(format!("t{}", n)), value }] });
+                let _ = h.step(&op);
             }
         }
         let (wcfg, cfgname) = gen_config(&mut rng);
